@@ -20,10 +20,10 @@ ALPHA_SPEC = {
     "doc": {"content": "a*"},
     "a": {"group": "g blk"},
     "b": {"group": "g blk", "content": "a*"},
-    "c": {"group": "blk", "attrs": {"req": {}}},          # not generatable
+    "c": {"group": "blk", "attrs": {"opt": {"default": 0}, "req": {}}},          # not generatable (the required attribute is not the first)
     "text": {"group": "inl"},
     "i": {"inline": True, "group": "inl"},
-    "r": {"inline": True, "group": "inl ng", "attrs": {"req": {}}},   # inline, not generatable
+    "r": {"inline": True, "group": "inl ng", "attrs": {"opt": {"default": None}, "req": {}}},   # inline, not generatable
 }
 ALPHABET = ["a", "b", "c", "text", "i", "r"]
 
